@@ -52,7 +52,8 @@ impl Fdt {
     ) -> Fdt {
         Fdt {
             _tsi: tsi,
-            fdtid,
+            // The FDT Instance ID is a 20 bits field of EXT_FDT
+            fdtid: fdtid & 0xFFFFF,
             oti: default_oti.clone(),
             files_transfer_queue: VecDeque::new(),
             fdt_transfer_queue: VecDeque::new(),
